@@ -199,7 +199,7 @@ def check_property(pid, units, tier="quick", seed=0, extra=None):
             proved += 1
             by_backend[s.get("backend", "z3")] = by_backend.get(s.get("backend", "z3"), 0) + 1
         elif s["verdict"] == "refuted":
-            hit = next((f for f in kf if f["obligation"] == f"{r.unit.name}/{ob.name}" and f.get("config_contains", "") in label), None)
+            hit = next((f for f in kf if f.get("obligation") == f"{r.unit.name}/{ob.name}" and f.get("config_contains", "") in label), None)
             if hit is not None:
                 known_hits.append((hit, r, label, ob, s))
             else:
